@@ -289,6 +289,7 @@ func GenDef(r *rand.Rand, p *Profile) Cfg {
 	}
 	c.Inherit = chance(r, 0.4)
 	c.OptsLate = chance(r, 0.3)
+	c.EnvLate = chance(r, 0.3)
 	if len(c.Nodes) > 1 && chance(r, 0.15) {
 		// a program whose top level declares no options of its own: everything lives in the commands
 		targets := []int{}
@@ -351,7 +352,7 @@ func genValue(r *rand.Rand, p *Profile) string {
 	case 3, 4, 5:
 		return pick(r, numPool)
 	case 6:
-		return pick(r, []string{"k=v", "k=v=w", "K=x", "a=", "=b", "é=ü"})
+		return pick(r, []string{"k=v", "k=v=w", "K=x", "a=", "=b", "é=ü", ":8080", "::1", "=", ":", "=:x"})
 	default:
 		if p.Wild {
 			return pick(r, wildPool)
